@@ -17,6 +17,17 @@ tree :=
   t1 <x̂> <tree> | t2 <x̂> <row>*n <tree> | cl <x̂> <mask bits|_> <tree>
   agg sumsq|possumsq|max <idx|_> n<c>|a<list> <tree>
 answer:  v=<values> J=<row;row;...>     (or `bad-line`)
+
+Sessions (stateful; the state is `Sess Rat` of the model, printed after every op):
+  sess                                  forget every object, empty point buffer
+  newL <id> <m> <row>*m <b> | newQ <id> <n> <row>*n <b|_> <c> | newP <id> <n> <m> <poly>*m
+  setQ <id> <n> <row>*n | setQb <id> <b> | setLA <id> <m> <row>*m | setLb <id> <b> | setLbn <id> <c>
+  setP <id> <n> <m> <poly>*m
+  edQ <id> <i> <j> <v> | edQb <id> <j> <v> | edLA <id> <i> <j> <v> | edLb <id> <i> <v>
+  x <list>                              the caller writes its point buffer
+  call <n> <tree>                       tree leaves `U <id>` refer to the objects
+answers: `obj <id> L A=<rows> b=<b>` | `obj <id> Q Q=<rows> b=<b> c=<c>` | `obj <id> P <polys>` |
+         `x=<list>` | `v=.. J=..`
 -/
 
 def parseMono (n : Nat) (s : String) : Option (Mono Rat) :=
@@ -51,6 +62,9 @@ partial def parseE (n : Nat) (ts : List String) : Option (Expr Rat × List Strin
       let b ← parseRatList? b
       pure (.lin m rows b, r)
     | _ => none
+  | "U" :: id :: r => do
+    let id ← id.toNat?
+    pure (.user id, r)
   | "Q" :: r => do
     let (rows, r) ← takeN n r
     let rows ← rows.mapM parseRatList?
@@ -165,4 +179,120 @@ def answer (line : String) : String :=
     | _, _ => "bad-line"
   | _ => "bad-line"
 
-def main : IO Unit := driverLoop (fun (_ : Unit) l => ((), answer l)) ()
+/-! ### Sessions -/
+
+def showRows (rows : List (List Rat)) : String :=
+  if rows.isEmpty then "[]" else ";".intercalate (rows.map showRatList)
+
+def showPoly (p : List (Mono Rat)) : String :=
+  if p.isEmpty then "0" else ";".intercalate (p.map (fun (c, e) => s!"{showRat c}:{".".intercalate (e.map toString)}"))
+
+def showObj (s : Sess Rat) (id : Nat) : String :=
+  match s.objs id with
+  | some (.linear A b) => s!"obj {id} L A={showRows A} b={showRatList b}"
+  | some (.quadratic Q b c) => s!"obj {id} Q Q={showRows Q} b={showRatList b} c={showRat c}"
+  | some (.callable ps) => s!"obj {id} P {" ".intercalate (ps.map showPoly)}"
+  | none => s!"obj {id} none"
+
+def parseRows (k : Nat) (ts : List String) : Option (List (List Rat) × List String) := do
+  let (rows, r) ← takeN k ts
+  let rows ← rows.mapM parseRatList?
+  pure (rows, r)
+
+/-- Parse one session line into an operation of the model and the id whose state is printed. -/
+def parseOp (ts : List String) : Option (SOp Rat × Option Nat) :=
+  match ts with
+  | "newL" :: id :: m :: r => do
+    let id ← id.toNat?
+    let m ← m.toNat?
+    let (rows, r) ← parseRows m r
+    match r with
+    | [b] => do
+      let b ← parseRatList? b
+      pure (.newLin id rows b, some id)
+    | _ => none
+  | "newQ" :: id :: n :: r => do
+    let id ← id.toNat?
+    let n ← n.toNat?
+    let (rows, r) ← parseRows n r
+    match r with
+    | [b, c] => do
+      let b ← if b = "_" then some [] else parseRatList? b
+      let c ← parseRat? c
+      pure (.newQuad id rows b c, some id)
+    | _ => none
+  | "newP" :: id :: n :: m :: r => do
+    let id ← id.toNat?
+    let n ← n.toNat?
+    let m ← m.toNat?
+    if r.length ≠ m then none else
+    let ps ← r.mapM (parsePoly n)
+    pure (.newCallable id ps, some id)
+  | "setP" :: id :: n :: m :: r => do
+    let id ← id.toNat?
+    let n ← n.toNat?
+    let m ← m.toNat?
+    if r.length ≠ m then none else
+    let ps ← r.mapM (parsePoly n)
+    pure (.setCallables id ps, some id)
+  | "setQ" :: id :: n :: r => do
+    let id ← id.toNat?
+    let n ← n.toNat?
+    let (rows, r) ← parseRows n r
+    if r.isEmpty then pure (.setQuadCoeffs id rows, some id) else none
+  | ["setQb", id, b] => do
+    let id ← id.toNat?
+    let b ← parseRatList? b
+    pure (.setQuadLinCoeffs id b, some id)
+  | "setLA" :: id :: m :: r => do
+    let id ← id.toNat?
+    let m ← m.toNat?
+    let (rows, r) ← parseRows m r
+    if r.isEmpty then pure (.setLinCoeffs id rows, some id) else none
+  | ["setLb", id, b] => do
+    let id ← id.toNat?
+    let b ← parseRatList? b
+    pure (.setLinValueAtZero id b, some id)
+  | ["setLbn", id, c] => do
+    let id ← id.toNat?
+    let c ← parseRat? c
+    pure (.setLinValueAtZeroNum id c, some id)
+  | ["edQ", id, i, j, v] => do
+    pure (.editQuadCoeff (← id.toNat?) (← i.toNat?) (← j.toNat?) (← parseRat? v), some (← id.toNat?))
+  | ["edQb", id, j, v] => do
+    pure (.editQuadLinCoeff (← id.toNat?) (← j.toNat?) (← parseRat? v), some (← id.toNat?))
+  | ["edLA", id, i, j, v] => do
+    pure (.editLinCoeff (← id.toNat?) (← i.toNat?) (← j.toNat?) (← parseRat? v), some (← id.toNat?))
+  | ["edLb", id, i, v] => do
+    pure (.editLinValueAtZero (← id.toNat?) (← i.toNat?) (← parseRat? v), some (← id.toNat?))
+  | ["x", xs] => do
+    let xs ← parseRatList? xs
+    pure (.writeX xs, none)
+  | "call" :: n :: r => do
+    let n ← n.toNat?
+    match parseE n r with
+    | some (e, []) => pure (.call n e, none)
+    | _ => none
+  | _ => none
+
+def showDV (n : Nat) (d : DV Rat) : String :=
+  let vals := (List.range d.m).map d.val
+  let rows := (List.range d.m).map (fun i => showRatList ((List.range n).map (d.jac i)))
+  s!"v={showRatList vals} J={if rows.isEmpty then "[]" else ";".intercalate rows}"
+
+def sessionStep (s : Sess Rat) (line : String) : Sess Rat × String :=
+  match tokens line with
+  | ["sess"] => (Sess.empty, "ok")
+  | "eval" :: _ => (s, answer line)
+  | ts =>
+    match parseOp ts with
+    | none => (s, "bad-line")
+    | some (op, shown) =>
+      let (s', out) := step noEnv thr s op
+      match op, out, shown with
+      | .call n _, some d, _ => (s', showDV n d)
+      | .writeX _, _, _ => (s', s!"x={showRatList s'.x}")
+      | _, _, some id => (s', showObj s' id)
+      | _, _, _ => (s', "ok")
+
+def main : IO Unit := driverLoop sessionStep Sess.empty
